@@ -31,7 +31,7 @@ def _run_loom(out_path, preemptions):
     return failed, out
 
 
-def credit_executions(tier, work):
+def credit_executions(tier, work, lost_only=False):
     """For C03 (credit is never exceeded, for every schedule): the loom executions of the real writer/credit code whose
     history TLC rejects (WakeTrace.tla) AND in which the credit is not conserved (a frame without a unit of credit or a
     lost grant).  Returns (number of executions, [records])."""
@@ -51,10 +51,17 @@ def credit_executions(tier, work):
     bad = [json.loads(m.group(1).encode().decode("unicode_escape"))[1] for m in re.finditer(r'<<"BAD", "(.*)">>', rv["out"])]
 
     def unconserved(rec):
+        # first clause of WriterWakeDefs.Contract; lost_only (C04): a unit of credit disappeared (the writer will stall),
+        # or the writer was left sleeping although it could proceed (last clause: lost wake-up)
         try:
             okn = list(rec["polls"]).count("ok") + (1 if rec["after"] == "ok" else 0)
-            return rec["cf"] + okn != rec["c0"] + list(rec["ops"]).count("a")
-        except (KeyError, TypeError):
+            have, should = rec["credit_final"] + okn, rec["credit"] + str(rec["ops"]).count("a")
+            if not lost_only:
+                return have != should
+            polls = list(rec["polls"])
+            sleeping = bool(polls) and polls[-1] == "pending" and rec["after"] == "ok" and list(rec["woken"])[-1] < 1
+            return have < should or sleeping
+        except (KeyError, TypeError, IndexError):
             return True
     return len(lines), [r for r in bad if unconserved(r)]
 
